@@ -163,9 +163,9 @@ void h_sse_memcpy_small_bounded(void) {
 void h_sse_match_length_bounded(void) {
   /* LZ situation: p and match in one buffer, match before p, limit = end of the buffer (exact
    * size: any over-read of p is out of bounds); limit - p <= 48 */
-  size_t tot = nondet_size_t(), po = nondet_size_t(), mo = nondet_size_t();
-  __CPROVER_assume(tot <= 64 && po <= tot && tot - po <= 48 && mo <= po);
-  uint8_t *buf = malloc(tot);
+  size_t tot = 64, po = nondet_size_t(), mo = nondet_size_t();
+  __CPROVER_assume(po <= tot && tot - po <= 48 && mo <= po);
+  uint8_t *buf = malloc(64);
   __CPROVER_assume(buf != NULL);
   const uint8_t *p = buf + po, *match = buf + mo;
   size_t r = carquet_sse_match_length(p, match, buf + tot);
@@ -180,18 +180,22 @@ void h_sse_match_length_bounded(void) {
 
 /* byte-stream split float, bounded in count (0..47: every remainder mod 4, up to 11 vector steps),
  * symbolic data, exact-size buffers (any access outside [0, 4*count) is out of bounds) */
+#ifndef CQV_BSS_ENC_MAX
+#define CQV_BSS_ENC_MAX 47
+#endif
 void h_sse_bss_encode_float_bounded(void) {
   int64_t count = nondet_i64();
-  __CPROVER_assume(0 <= count && count <= 47);
-  float *values = malloc((size_t)count * 4);
-  uint8_t *out = malloc((size_t)count * 4);
-  __CPROVER_assume(values != NULL && out != NULL);
-  int64_t k = nondet_i64(); int b = nondet_int();
-  __CPROVER_assume(0 <= k && k < count && 0 <= b && b < 4);
-  uint8_t want = ((const uint8_t *)values)[k * 4 + b];
+  __CPROVER_assume(0 <= count && count <= CQV_BSS_ENC_MAX);
+  float *values = malloc((size_t)count * 4);   /* exact size: any over-read is out of bounds */
+  uint8_t out[4 * CQV_BSS_ENC_MAX + 16];       /* 4*count output bytes, then guard bytes that must not change */
+  __CPROVER_assume(values != NULL);
+  int64_t k = nondet_i64(); int b = nondet_int(); size_t m = nondet_size_t();
+  __CPROVER_assume(0 <= k && k < count && 0 <= b && b < 4 && m >= (size_t)count * 4 && m < sizeof out);
+  uint8_t want = ((const uint8_t *)values)[k * 4 + b], old_m = out[m];
   carquet_sse_byte_stream_split_encode_float(values, count, out);
   __CPROVER_assert(out[b * count + k] == want, "stream b, position k holds byte b of value k");
-  if (count == 47) CQV_CANARY("vector and tail steps taken");
+  __CPROVER_assert(out[m] == old_m, "no byte at or after output + 4*count changes");
+  if (count == CQV_BSS_ENC_MAX) CQV_CANARY("vector and tail steps taken");
   CQV_CANARY("returns");
 }
 void h_sse_bss_decode_float_bounded(void) {
